@@ -211,7 +211,7 @@ func mutateBytes(r *vlib.R, in []byte) []byte {
 
 func runC12(tier string, _ []string) int {
 	c := vlib.NewCtx("C12", tier, "exploration")
-	c.SetRule("round trips: PRNG points/nodes (hostile strings, float bit patterns incl. NaN payloads, wire-range times, data nil/empty/random) through ToPb/PbDecodePoints, ToPb/PbDecodeNode, Nodes.ToPb/PbDecodeNodes, hand-wrapped NodeRequest/NodesRequest; 2-6 encodings (half of them above 4 KiB) made in a row from 12 goroutines and decoded only afterwards; distinct = (codec, count of points, field classes present). decoders: random bytes and mutations (truncate, flip, set, insert, delete, splice, huge varint) of valid encodings (incl. bare 17-20 byte serial frames of every documented subject) into all 9 decoders + 4 subject parsers; distinct = (decoder, outcome class, input length bucket)")
+	c.SetRule("round trips: PRNG points/nodes (hostile strings, float bit patterns incl. NaN payloads, wire-range times, data nil/empty/random) through ToPb/PbDecodePoints, ToPb/PbDecodeNode, Nodes.ToPb/PbDecodeNodes, hand-wrapped NodeRequest/NodesRequest; 2-6 encodings (half of them above 4 KiB) made in a row from 12 goroutines and decoded only afterwards; distinct = (codec, count of points, field classes present). decoders: random bytes and mutations (truncate, flip, set, insert, delete, splice, huge varint) of valid encodings (incl. bare 17-20 byte serial frames of every documented subject) into all 9 decoders + 4 subject parsers, a known good message decoded again afterwards (must still be itself); distinct = (decoder, outcome class, input length bucket)")
 	c.Assume("times limited to 0001..9999 (wire range); tombstone within int32 (wire type)")
 	nRT := c.N(30000, 1500000)
 	nDec := c.N(100000, 5000000)
@@ -312,18 +312,39 @@ func runC12(tier string, _ []string) int {
 				return
 			}
 			cmp("node", got)
-			nodes := data.Nodes{ne, ne}
+			// a node list as the store returns it: the same id may appear several times (once per parent,
+			// also nodes without id), each entry with its own points and edge points
+			first := ne
+			other := data.NodeEdge{ID: ne.ID, Type: ne.Type, Parent: wireStr(r), Hash: r.Uint32()}
+			if r.Chance(0.5) {
+				other.ID, first.ID = "", ""
+			}
+			other.Points = make(data.Points, r.Intn(3))
+			for j := range other.Points {
+				other.Points[j] = genWirePoint(r)
+			}
+			other.EdgePoints = make(data.Points, r.Intn(3))
+			for j := range other.EdgePoints {
+				other.EdgePoints[j] = genWirePoint(r)
+			}
+			nodes := data.Nodes{first, other, first}
 			nsb, err := nodes.ToPb()
 			if err != nil {
 				c.Violate("wire:nodes-encode-error", err.Error(), nil)
 				return
 			}
 			gots, err := data.PbDecodeNodes(nsb)
-			if err != nil || len(gots) != 2 {
+			if err != nil || len(gots) != 3 {
 				c.Violate("wire:nodes-decode-error", fmt.Sprint(err, len(gots)), nil)
 				return
 			}
-			cmp("nodes", gots[1])
+			for k, want := range nodes {
+				g := gots[k]
+				if g.ID != want.ID || g.Type != want.Type || g.Parent != want.Parent || g.Hash != want.Hash || pointsDiff(want.Points, g.Points) != "" || pointsDiff(want.EdgePoints, g.EdgePoints) != "" {
+					c.Violate("wire:node-field-changed", fmt.Sprintf("nodes round trip: entry %d of a list in which entries share an id came back with other content (points %s, edge points %s)", k, pointsDiff(want.Points, g.Points), pointsDiff(want.EdgePoints, g.EdgePoints)), map[string]any{"id": want.ID, "points": witnessPoints(want.Points), "first_entry_points": witnessPoints(first.Points)})
+					return
+				}
+			}
 			// NodeRequest{node=1}, NodesRequest{nodes=1 repeated}
 			req := pbBytesField(nil, 1, nb)
 			got, err = data.PbDecodeNodeRequest(req)
@@ -473,6 +494,10 @@ func runC12(tier string, _ []string) int {
 	}
 	valid = append(valid, []byte{}, nil, pbBytesField(nil, 2, []byte("document not found")), pbBytesField(nil, 2, []byte("x")),
 		pbBytesField(nil, 1, nil), pbBytesField(nil, 1, pbBytesField(nil, 3, nil)), pbBytesField(nil, 1, pbBytesField(nil, 5, []byte{0x08, 0xff, 0xff, 0xff, 0xff, 0xff, 0xff, 0xff, 0xff, 0x7f})))
+	canary := data.Points{{Type: "canary", Key: "k", Time: time.Unix(1700000000, 5), Value: 42.5, Text: "text", Origin: "o", Tombstone: 2, Data: []byte{1, 2}}, {Type: "second", Time: time.Unix(1700000001, 0), Value: -1}}
+	canaryPts, _ := canary.ToPb()
+	canaryNE := data.NodeEdge{ID: "canary", Type: "t", Parent: "p", Points: canary}
+	canaryNode, _ := canaryNE.ToPb()
 	for i := 0; i < nDec; i++ {
 		r := vlib.NewR(c.Seed, "c12dec", i)
 		var in []byte
@@ -485,6 +510,8 @@ func runC12(tier string, _ []string) int {
 		default:
 			in = mutateBytes(r, valid[r.Intn(len(valid))])
 		}
+		// after the hostile input has been through the decoders, a known good message must still decode
+		// to exactly its own content (nothing of a refused message may stay behind in a decoder)
 		for _, d := range decs {
 			c.Eval(1)
 			func() {
@@ -506,6 +533,24 @@ func runC12(tier string, _ []string) int {
 				}
 				c.Distinct(fmt.Sprintf("%s err=%v len~%d", d.name, err != nil, lb))
 			}()
+		}
+		if i%8 == 0 || i < len(valid) {
+			for k := 0; k < 3; k++ { // a pool may hold several objects: ask a few times
+				back, err := data.PbDecodePoints(canaryPts)
+				d := ""
+				if err == nil {
+					d = pointsDiff(canary, back)
+				}
+				nd, nerr := data.PbDecodeNode(canaryNode)
+				if nerr == nil && d == "" {
+					d = pointsDiff(canary, nd.Points)
+				}
+				if err != nil || nerr != nil || d != "" || nd.ID != "canary" {
+					c.Violate("wire:valid-message-decodes-wrong-after-refused-input", fmt.Sprintf("after a hostile input (%d bytes) a valid message no longer decodes to its own content: %v %v %s", len(in), err, nerr, d), map[string]any{"hostile_input": in})
+					return c.Finish()
+				}
+			}
+			c.Count("canary_decodes_after_hostile_input", 1)
 		}
 		if i < 2 {
 			c.Sample(map[string]any{"kind": "decoder-input", "bytes": in})
